@@ -18,6 +18,17 @@ CHECKS = {
          "exactly once in source order, brace balance, and full match against an independently written reference renderer (regex, whitespace-insensitive).",
          "Reference renderer and symbol table (derived from Unicode names) are trusted; trees follow schema child order; trees with malformed radicals are judged by clauses 1-4 only; "
          "sampling beyond the enumerated sizes.", "DESIGN.md §4 C19"),
+ "C07": ("exploration", "Hypothesis path-string generation + exhaustive extension/case/stem product against an independent routing table, 3 MIME configurations",
+         "Every documented extension x 5 case masks x 14 stems x 3 MIME configurations is enumerated; thousands of generated paths (directory/stem grammar, every extension known to the "
+         "README, the router and the platform mimetypes database, junk) per configuration check is_supported_file <=> get_extractor, exact error type, documented extractor, alias==base, "
+         "case/stem/directory/MIME invariance; read_file dispatch is checked with spies on real temp files.",
+         "The reference table is hand-transcribed from the README; MIME fallback outcomes for undocumented extensions are only checked for equivalence of the two entry points.", "DESIGN.md §4 C07"),
+ "C11": ("exploration", "exhaustive boundary lattice + Hypothesis vectors against an exact-rational reference predicate; forged real ZIP packages with an open/validate event monitor",
+         "validate_zipfile is compared with an independently written reference on the complete single-clause boundary lattice and on tens of thousands of generated (entries, limits) vectors built "
+         "around the thresholds; 12 real package kinds get extra members with forged central-directory sizes on either side of each DEFAULT limit (incl. 50 000/50 001 entries) and must be rejected "
+         "exactly when the reference rejects, with no member opened before validation or after rejection; tell() preservation of validate_zip_bytesio.",
+         "Base packages are repository fixtures re-packed by zipfile; the 'no extractor opens ZipFile directly' clause is observed at run time on the driven paths only; the entry-count clause is not "
+         "judged where counting directories would change the verdict.", "DESIGN.md §4 C11"),
 }
 NOT_YET = {}
 
